@@ -186,6 +186,22 @@ def entry (e : EntryPoint) (dflt : Env) (f : File) (names : List String) : Resul
     | .ok l => { launches := [l], raised := none }
     | .error _ => { launches := [], raised := none }
 
+/-! ## The host process around an entry point
+
+How the HOST process is set up — whether its logging is at DEBUG with a handler that formats every record,
+whether its `stdout` can encode what is printed (UTF-8 or not) or is closed at all — is not an input of what is
+launched: `entryIn` takes it and ignores it.  (That the real code ignores it too is what the correspondence run
+with DEBUG logging, credential-looking environment names and ascii / cp1252 / closed stdout decides.) -/
+
+structure HostProc where
+  debugLogging : Bool
+  stdoutEncodesAll : Bool
+  stdoutOpen : Bool
+  deriving DecidableEq, Repr
+
+def entryIn (_h : HostProc) (e : EntryPoint) (dflt : Env) (f : File) (names : List String) : Result :=
+  entry e dflt f names
+
 /-! ## Which file is executed
 
 `anyio.open_process([command, *args], env=env)` ends in `execvpe`-like semantics: a command that
